@@ -117,7 +117,34 @@ def tabulate() -> dict:
     import numpy as np
     import onnx
     from spox import Tensor
-    from spox._utils import dtype_to_tensor_type, tensor_type_to_dtype
+
+    unobservable = []
+
+    def missing(name):
+        def f(*_a, **_k):
+            raise RuntimeError(f"{name} not observable")
+        return f
+
+    # the two conversion functions are internals: when they cannot be reached the rows are recorded as
+    # refused, the generated obligations fail (-> `broken`), nothing raises here
+    try:
+        from spox._utils import dtype_to_tensor_type
+    except Exception as e:  # noqa: BLE001
+        unobservable.append(f"spox._utils.dtype_to_tensor_type: {type(e).__name__}: {e}")
+        dtype_to_tensor_type = missing("dtype_to_tensor_type")
+    try:
+        from spox._utils import tensor_type_to_dtype
+    except Exception as e:  # noqa: BLE001
+        unobservable.append(f"spox._utils.tensor_type_to_dtype: {type(e).__name__}: {e}")
+        tensor_type_to_dtype = missing("tensor_type_to_dtype")
+
+    def elem_class(t):
+        c = getattr(t, "_elem_type", None)
+        if c is None:
+            if "Tensor._elem_type" not in " ".join(unobservable):
+                unobservable.append("Tensor._elem_type: attribute missing (using Tensor.dtype.type)")
+            c = t.dtype.type
+        return c
 
     classes: list = list(scalar_classes())
 
@@ -136,7 +163,7 @@ def tabulate() -> dict:
             row = {"name": name, "cls": None, "code": None, "err_cls": None, "err_code": None,
                    "defined": onnx_defines(obj)}
             try:
-                row["cls"] = cid(Tensor(obj)._elem_type)
+                row["cls"] = cid(elem_class(Tensor(obj)))
             except Exception as e:  # noqa: BLE001
                 row["err_cls"] = refusal(e)
             try:
@@ -152,7 +179,7 @@ def tabulate() -> dict:
             try:
                 d = tensor_type_to_dtype(c)
                 r["dtype_cls"] = cid(d.type)
-                r["tensor_cls"] = cid(Tensor(d)._elem_type)
+                r["tensor_cls"] = cid(elem_class(Tensor(d)))
             except Exception as e:  # noqa: BLE001
                 r["err"] = refusal(e)
             code_rows.append(r)
@@ -175,6 +202,7 @@ def tabulate() -> dict:
         "enum": [c for c in enum if c != int(onnx.TensorProto.UNDEFINED)],
         "elem_classes": elem_classes,
         "sub": sub,
+        "unobservable": unobservable,
     }
 
 
